@@ -109,3 +109,8 @@ def run(ctx):
         raise vlib.ToolError("binding self-test failed: Trace_Lut accepted a non-monotone scan")
     ctx.extra_cov["binding_selftests"] = ["Trace_Lut flags a corrupted window output", "Trace_Lut rejects a non-monotone scan"]
     ctx.exhaustive = False
+
+    # specification growth (thorough tier only): the whole conversion pipeline under ConvertOptions
+    if not q:
+        from checks import _pipeline
+        _pipeline.run_conversion(ctx)
